@@ -33,9 +33,16 @@ ASSUMPTIONS = [
 
 M1, M2, M3 = "pkg.m1", "pkg.m2", "pkg.m3"
 M0 = "pkg.m"  # a different module whose name is a substring of the others' names
+M1X = "pkg.m1.x"  # a sub module of M1: another name, so it can be supplied next to M1 (round 8)
 RX = r"pkg\.r.*"
 ARCH_OPS = [("layer", "L1"), ("layer", "L2"), ("layer", "L3"), ("cm", M1), ("cm", M2), ("cm", [M1]), ("cm", [M2]), ("cm", [M1, M2]),
-            ("rx", RX), ("with_layer",), ("cm", []), ("cm", M0), ("cm", [M2, M1])]
+            ("rx", RX), ("with_layer",), ("cm", []), ("cm", M0), ("cm", [M2, M1]), ("cm", [M1, M1X]), ("cm", M1X)]
+
+
+def _related(a: str, b: str) -> bool:
+    ta, tb = a.split("."), b.split(".")
+    n = min(len(ta), len(tb))
+    return a != b and ta[:n] == tb[:n]
 
 
 # ------------------------------------------------------------------- LayeredArchitecture
@@ -71,6 +78,11 @@ class LayerBuilderModel:
             return "reject"
         self.layers[self.pending] = mods
         self.pending = None
+        if any(_related(m, o) for m in mods for o in list(assigned) + mods):
+            # a module supplied together with / after its own parent or sub module: the names differ, so nothing in the
+            # property forbids it, but nothing demands that it be accepted either. No claim about the call itself; if it is
+            # accepted, the definition must list exactly what was supplied and every supplied name counts as assigned.
+            return "noclaim"
         return "accept"
 
 
@@ -95,6 +107,7 @@ def run_arch_seq(seq) -> dict:
     stop = None
     interesting = False
     for i, op in enumerate(seq):
+        before = ({k: (list(v) if v is not None else None) for k, v in model.layers.items()}, model.pending)
         want = model.step(op)
         try:
             apply_arch(arch, op)
@@ -107,11 +120,13 @@ def run_arch_seq(seq) -> dict:
             interesting = True
         if got == "assertion":
             viols.append({"sig": f"C16/arch/assertion-error/{op[0]}", "key": {"op": op[0]}, "detail": f"step {i} {op}: {err}"})
-        elif want != got:
+        elif want != got and want != "noclaim":
             form = "str" if (op[0] == "cm" and isinstance(op[1], str)) else ("list" if op[0] == "cm" else "-")
             viols.append({"sig": f"C16/arch/{op[0]}/{form}/model={want},impl={got}", "key": {"op": op[0], "form": form, "want": want},
                           "detail": f"sequence {seq}: step {i} {op}: model {want}, implementation {got} {err or ''}"})
-        if got != "accept" or want != "accept":
+        if want == "noclaim" and got != "accept":
+            model.layers, model.pending = before  # the call was not accepted: nothing was supplied by it
+        if got != "accept" or want == "reject":
             stop = i
             break
     if stop is None or (not viols):
@@ -317,7 +332,8 @@ def cases(draw):
     kind = draw(st.sampled_from(["arch", "arch", "rule"]))
     if kind == "arch":
         ops = [("layer", "L1"), ("layer", "L2"), ("layer", "L3"), ("cm", M1), ("cm", M2), ("cm", M3), ("cm", [M1]),
-               ("cm", [M2, M3]), ("cm", [M1, M3]), ("cm", [M3]), ("rx", RX), ("rx", r"pkg\.q.*"), ("with_layer",), ("cm", []), ("cm", M0), ("cm", [M0, M2]), ("cm", [M3, M1]), ("cm", [M2, M0, M1])]
+               ("cm", [M2, M3]), ("cm", [M1, M3]), ("cm", [M3]), ("rx", RX), ("rx", r"pkg\.q.*"), ("with_layer",), ("cm", []), ("cm", M0), ("cm", [M0, M2]), ("cm", [M3, M1]), ("cm", [M2, M0, M1]),
+               ("cm", [M1, M1X]), ("cm", [M1X, M3, M1]), ("cm", M1X), ("cm", ["pkg", M2]), ("cm", [M1X])]
         seq = draw(st.lists(st.sampled_from(ops), min_size=3, max_size=12))
     else:
         seq = [("based_on",), ("layers_that",)] if draw(st.booleans()) else []
